@@ -424,3 +424,5 @@ def run(prog: Program, res: Result, tier: str) -> None:
     check_preserve(prog, res)
     check_purge(prog, res)
     check_key_centre(prog, res)
+    from ..derive import check_container_kinds
+    check_container_kinds(prog, res)
